@@ -60,6 +60,20 @@ monitor(void)
 			CHECK(env_aio_completed(&uaio_at(i)) <= 1, "operation completes at most once");
 	if (!sock_closed)
 		CHECK(nni_atomic_get_bool(&sock.readable.p_raised) == !nni_list_empty(&sock.recvpipes), "C15: receive poll state mirrors whether a request is waiting");
+#ifndef XCTX
+	if (!sock_closed) {
+		/* a reply on the socket can be taken at once iff a request is being served and its connection is idle (or gone:
+		 * the reply is then accepted and discarded) */
+		bool can = false;
+		if (sock.ctx.btrace_len > 0) {
+			can = true;
+			for (int p = 0; p < MAXP; p++)
+				if (kpipe_up[p] && !pd[p].closed && kpipe[p].id == sock.ctx.pipe_id && pd[p].busy)
+					can = false;
+		}
+		CHECK(nni_atomic_get_bool(&sock.writable.p_raised) == can, "C15: send poll state mirrors whether a reply would be taken at once");
+	}
+#endif
 }
 static void
 ev_attach(int p)
@@ -123,6 +137,10 @@ ev_got(int p, int nh)
 	}
 	CTXP->btrace_len = (size_t) n;
 	CTXP->pipe_id    = kpipe[p].id;
+#ifndef XCTX
+	if (!pd[p].busy)
+		nni_pollable_raise(&sock.writable); /* as rep0_ctx_recv leaves it (checked through the Q/R skeletons) */
+#endif
 	qhlen[nq]           = n;
 	qpipe[nq]           = p;
 	nq++;
